@@ -152,7 +152,8 @@ def verbose_8_size_9(d):
         for dark in (False, True):
             data_c = det['cmap_data'][str(4 << 8 if dark else 4)]
             fmt_c = det['cmap_format'][str(14 << 8 if dark else 14)]
-            same_exp = (exp is None and data_c is None) or (exp is not None and data_c is not None and list(exp) == list(data_c))
+            invisible = lambda c: c is None or c[3] == 0   # noqa: E731  (a colour with alpha 0 paints nothing, like None)
+            same_exp = (invisible(exp) and invisible(data_c)) or (exp is not None and data_c is not None and list(exp) == list(data_c))
             if not same_exp:
                 continue
             if fmt_c is None or fmt_c[3] == 0:
